@@ -31,13 +31,17 @@ class Untranslatable(Exception):
 
 RESERVED = {"end", "at", "from", "fun", "open", "by", "do", "then", "else", "if", "match", "with", "let", "in", "have", "show",
             "theorem", "def", "namespace", "section", "instance", "structure", "where", "variable", "import", "Type", "Prop",
-            "Sort", "s", "E", "M", "and", "or", "not", "max", "min", "some", "none", "default"}
+            "Sort", "s", "v", "c", "E", "M", "and", "or", "not", "max", "min", "some", "none", "default"}
 
 CONSTS = {"CHUNK_ALIGN", "FOOTER_SIZE", "OVERHEAD", "TYPICAL_PAGE_SIZE", "DEFAULT_CHUNK_SIZE_WITHOUT_FOOTER",
           "FIRST_ALLOCATION_GOAL", "MALLOC_OVERHEAD", "SUPPORTED_ITER_ALIGNMENT"}
 
 # ---- types -------------------------------------------------------------------------------------------------
 NAT, BOOL, UNIT, LAYOUT, DETAILS, CHUNK, ORD, BUMP = "nat", "bool", "unit", "layout", "details", "chunk", "ordering", "bump"
+RAWVEC, RERR, STRATEGY, FALLIB = "rawvec", "rerr", "strategy", "fallibility"
+
+
+def res2(t): return ("res2", t)
 
 
 def opt(t): return ("opt", t)
@@ -53,6 +57,10 @@ def lean_ty(t):
     if t == CHUNK: return "Chunk"
     if t == ORD: return "Ordering"
     if isinstance(t, tuple) and t[0] in ("opt", "res"): return f"(Option {lean_ty(t[1])})"
+    if isinstance(t, tuple) and t[0] == "res2": return f"(Except V.RErr {lean_ty(t[1])})"
+    if t == RERR: return "V.RErr"
+    if t == STRATEGY: return "Rs.Strategy"
+    if t == FALLIB: return "Rs.Fallibility"
     if isinstance(t, tuple) and t[0] == "tuple": return "(" + " × ".join(lean_ty(x) for x in t[1]) + ")"
     raise Untranslatable(f"no Lean type for {t}")
 
@@ -71,6 +79,10 @@ def rust_ty(text):
     if m: return opt(rust_ty(m.group(1)))
     m = re.fullmatch(r"Result<(.*),(AllocErr|AllocError)>", t)
     if m: return res(rust_ty(m.group(1)))
+    m = re.fullmatch(r"Result<(.*),CollectionAllocErr>", t)
+    if m: return res2(rust_ty(m.group(1)))
+    if t == "ReserveStrategy": return STRATEGY
+    if t == "Fallibility": return FALLIB
     raise Untranslatable(f"type {text!r} is outside the translated subset")
 
 
@@ -108,12 +120,34 @@ FUNCS = [
     Fn("shrink", "bump", "st", group="Realloc", anchor="unsafe fn is_last_allocation"),
     Fn("grow", "bump", "st", group="Realloc", anchor="unsafe fn is_last_allocation"),
 ]
+FUNCS += [
+    Fn("cap", "rawvec", "read", file="src/collections/raw_vec.rs", group="RawVec", lean="rv_cap"),
+    Fn("alloc_guard", "free", "pure", file="src/collections/raw_vec.rs", group="RawVec"),
+    Fn("amortized_new_size", "rawvec", "read", file="src/collections/raw_vec.rs", group="RawVec"),
+    Fn("reserve_internal_or_error", "rawvec", "st", file="src/collections/raw_vec.rs", group="RawVec"),
+    Fn("reserve_internal_or_panic", "rawvec", "st", file="src/collections/raw_vec.rs", group="RawVec"),
+    Fn("fallible_reserve_internal", "rawvec", "st", file="src/collections/raw_vec.rs", group="RawVec"),
+    Fn("infallible_reserve_internal", "rawvec", "st", file="src/collections/raw_vec.rs", group="RawVec"),
+    Fn("try_reserve_exact", "rawvec", "st", file="src/collections/raw_vec.rs", group="RawVec", lean="rv_try_reserve_exact"),
+    Fn("reserve_exact", "rawvec", "st", file="src/collections/raw_vec.rs", group="RawVec", lean="rv_reserve_exact"),
+    Fn("try_reserve", "rawvec", "st", file="src/collections/raw_vec.rs", group="RawVec", lean="rv_try_reserve"),
+    Fn("reserve", "rawvec", "st", file="src/collections/raw_vec.rs", group="RawVec", lean="rv_reserve"),
+]
 FN = {f.name: f for f in FUNCS}
+# names that exist on several receivers: the table is per receiver kind
+FN_BY_KIND = {}
+for f in FUNCS:
+    FN_BY_KIND[(f.kind, f.name)] = f
 
 # functions of the crate that are *not* translated but called by translated ones: mapped to the hand model
 EXTERNAL = {
     # name: (lean function, mode, return type)
     "alloc_layout_slow": ("Rs.alloc_layout_slow", "st", opt(NAT)),
+}
+# RawVec: `reserve_internal` (realloc through the arena, assignment of `ptr`/`cap`) is not translated; its callers reach
+# the hand model `V.reserveInternal`
+EXTERNAL_RV = {
+    "reserve_internal": ("RsV.reserve_internal", "st", res2(UNIT)),
 }
 
 
@@ -165,7 +199,14 @@ class Tr:
         self.ret = rust_ty(sig["ret"])
         self.st = fn.mode == "st"
         self.lifted = []
-        if fn.kind in ("bump", "chunk"):
+        # the threaded state: the arena model's `s : St`, or for RawVec methods the vector `v : V.VS`
+        if fn.kind == "rawvec":
+            self.sv, self.sty, self.bindS, self.pureS = "v", "V.VS", "RsV.bindV", "RsV.pureV"
+        else:
+            self.sv, self.sty, self.bindS, self.pureS = "s", "St", "bindO", "pureO"
+        if fn.kind == "rawvec":
+            self.lead, self.lead_names = ["(c : V.Cfg)"], ["c"]
+        elif fn.kind in ("bump", "chunk"):
             self.lead, self.lead_names = ["(E M : Nat)"], ["E", "M"]
         elif fn.kind == "assoc":
             self.lead, self.lead_names = ["(M : Nat)"], ["M"]
@@ -176,10 +217,10 @@ class Tr:
     def ret_lean_ty(self):
         t = self.ret
         inner = lean_ty(t[1]) if isinstance(t, tuple) and t[0] == "res" else lean_ty(t)
-        return f"St × Outcome {inner}" if self.st else f"Outcome {inner}"
+        return f"{self.sty} × Outcome {inner}" if self.st else f"Outcome {inner}"
 
     def wrap(self, outcome):
-        return f"(s, {outcome})" if self.st else outcome
+        return f"({self.sv}, {outcome})" if self.st else outcome
 
     def bad(self, why):
         return self.wrap(f'Outcome.bad "{self.fn.name}: {why}"')
@@ -200,6 +241,13 @@ class Tr:
             return f"(match {term} with | some v_ => {self.wrap('Outcome.ok v_')} | none => {self.wrap('Outcome.err')})"
         if ty == "never":
             return term
+        if isinstance(self.ret, tuple) and self.ret[0] == "res2":
+            if isinstance(ty, tuple) and ty[0] == "res2":
+                return self.wrap(f"Outcome.ok {paren(term)}")
+            m = re.fullmatch(r"\(some (.*)\)", term)
+            if isinstance(ty, tuple) and ty[0] == "res" and m and balanced(m.group(1)):
+                return self.wrap(f"Outcome.ok (Except.ok {paren(m.group(1))})")
+            raise Untranslatable(f"return of {term} : {ty} from a function returning Result<_, CollectionAllocErr>")
         return self.wrap(f"Outcome.ok {term}")
 
     def bind_call(self, call, callee_mode, k, env, ty):
@@ -208,11 +256,11 @@ class Tr:
         body = k(v, ty, env2)
         if callee_mode in ("pure", "read"):
             if self.st:
-                return f"(pureO s ({call}) fun s {v} =>\n{body})"
+                return f"({self.pureS} {self.sv} ({call}) fun {self.sv} {v} =>\n{body})"
             return f"(Rs.bindP ({call}) fun {v} =>\n{body})"
         if not self.st:
             raise Untranslatable(f"{self.fn.name} is translated without state but calls the stateful {call}")
-        return f"(bindO ({call} s) fun s {v} =>\n{body})"
+        return f"({self.bindS} ({call} {self.sv}) fun {self.sv} {v} =>\n{body})"
 
     def check(self, cond, why, rest, asserting=False):
         return f"(if {cond} then\n{rest}\nelse {self.panic() if asserting else self.bad(why)})"
@@ -231,14 +279,14 @@ class Tr:
         params = [f"({ln} : {lean_ty(t)})" for ln, t in captured]
         vname = None
         if ty != UNIT:
-            envj, vname = envj.bind("v", ty)
+            envj, vname = envj.bind("jv", ty)
             params.append(f"({vname} : {lean_ty(ty)})")
         for m in mutated:
             mty = env.d[m][1]
             envj, ln = envj.bind(m, mty)
             params.append(f"({ln} : {lean_ty(mty)})")
         if self.st or self.mode == "read":
-            params.append("(s : St)")
+            params.append(f"({self.sv} : {self.sty})")
         body = k(vname if ty != UNIT else "()", ty, envj)
         self.lifted.append(f"def {name} {' '.join(self.lead)} {' '.join(params)} : {self.ret_lean_ty()} :=\n{indent(body)}\n")
         lead_args = " ".join(self.lead_names)
@@ -251,7 +299,7 @@ class Tr:
             for m in mutated:
                 args.append(e.d[m][0])
             if self.st or self.mode == "read":
-                args.append("s")
+                args.append(self.sv)
             return f"(Gen.Fn.{name} {lead_args} {cap_args} {' '.join(args)})"
         return "", K(call, trivial=True)
 
@@ -276,7 +324,15 @@ class Tr:
             if len(segs) == 1 and segs[0] in env.d:
                 return env.d[segs[0]]
             if segs == ["self"]:
+                if self.fn.kind == "rawvec":
+                    return "v", RAWVEC
                 return "self", BUMP if self.fn.kind != "chunk" else CHUNK
+            if self.fn.file.endswith("raw_vec.rs") and len(segs) == 1:
+                table = {"CapacityOverflow": ("V.RErr.capOverflow", RERR), "Exact": ("Rs.Strategy.exact", STRATEGY),
+                         "Amortized": ("Rs.Strategy.amortized", STRATEGY), "Fallible": ("Rs.Fallibility.fallible", FALLIB),
+                         "Infallible": ("Rs.Fallibility.infallible", FALLIB), "AllocErr": ("V.RErr.allocErr", RERR)}
+                if segs[0] in table:
+                    return table[segs[0]]
             c = self.const(segs)
             if c: return c
             if segs[-1] == "None": return "none", opt("?")
@@ -349,6 +405,7 @@ class Tr:
                 if f in m: return f"{paren(t)}.{m[f]}", NAT
                 return None
             if ty == "static" and f == "0": return t, CHUNK
+            if ty == RAWVEC and f == "cap": return f"{paren(t)}.cap", NAT
             return None
         if k == "mcall":
             p = self.pure(e[1], env)
@@ -356,6 +413,9 @@ class Tr:
             t, ty = p
             name, args = e[2], e[3]
             if isinstance(ty, tuple) and ty[0] in ("opt", "res") and name == "map_err" and len(args) == 1 and args[0][0] == "closure":
+                cb = self.pure(args[0][2], env)
+                if cb is not None and cb[1] == RERR:
+                    return f"(Rs.okOr {t} {cb[0]})", res2(ty[1])
                 return t, res(ty[1])
             pa = [self.pure(a, env) for a in args]
             if any(x is None for x in pa): return None
@@ -393,6 +453,7 @@ class Tr:
                 if name == "is_ok" and not args: return f"{paren(t)}.isSome", BOOL
                 if name == "is_err" and not args: return f"{paren(t)}.isNone", BOOL
                 if name == "ok" and not args: return t, opt(ty[1])
+                if name == "ok_or" and len(pa) == 1 and pa[0][1] == RERR: return f"(Rs.okOr {t} {pa[0][0]})", res2(ty[1])
                 if name == "ok_or" and len(pa) == 1: return t, res(ty[1])
                 if name == "unwrap_or" and len(pa) == 1: return f"({paren(t)}.getD {pa[0][0]})", ty[1]
                 if name == "map_err" and len(args) == 1: return t, res(ty[1])
@@ -404,6 +465,12 @@ class Tr:
             pa = [self.pure(a, env) for a in args]
             if any(x is None for x in pa): return None
             n = segs[-1]
+            if n in ("size_of<T>", "align_of<T>") and not pa and self.fn.kind == "rawvec":
+                return ("c.esz" if n.startswith("size") else "c.eal"), NAT
+            if n == "size_of<usize>" and not pa:
+                return "8", NAT
+            if n == "Err" and len(pa) == 1 and pa[0][1] == RERR:
+                return f"(Except.error {pa[0][0]})", res2("?")
             if n in ("Some", "Ok") and len(pa) == 1:
                 t, ty = pa[0]
                 return f"(some {t})", (opt(ty) if n == "Some" else res(ty))
@@ -418,6 +485,8 @@ class Tr:
             if segs[-2:] == ["Layout", "from_size_align"] and len(pa) == 2:
                 return f"(Rs.layoutFromSizeAlign {pa[0][0]} {pa[1][0]})", res(LAYOUT)
             if segs[-2:] == ["EMPTY_CHUNK", "get"] and not pa: return "(emptyChunk E)", CHUNK
+            if segs[-2:] == ["Layout", "array<T>"] and len(pa) == 1 and self.fn.kind == "rawvec":
+                return f"(RsV.layoutArray c {pa[0][0]})", res(LAYOUT)
             return None
         if k == "mcall_static":
             return None
@@ -448,6 +517,7 @@ class Tr:
     def pattern(self, pat, ty, env):
         k = pat[0]
         if k == "pwild": return env, "_"
+        if k == "ptuple" and not pat[1] and ty == UNIT: return env, "()"
         if k == "pid":
             env2, ln = env.bind(pat[1], ty)
             return env2, ln
@@ -460,11 +530,23 @@ class Tr:
                 return env2, f"some {lp}"
             if n == "Err" and isinstance(ty, tuple) and ty[0] == "res":
                 return env, "none"
+            if n == "Ok" and isinstance(ty, tuple) and ty[0] == "res2" and len(pat[2]) == 1:
+                env2, lp = self.pattern(pat[2][0], ty[1], env)
+                return env2, f".ok {lp}"
+            if n == "Err" and isinstance(ty, tuple) and ty[0] == "res2" and len(pat[2]) == 1:
+                env2, lp = self.pattern(pat[2][0], RERR, env)
+                return env2, f".error {lp}"
         if k == "ppath":
             n = pat[1][-1]
             if n == "None": return env, "none"
             if ty == ORD and n in ("Less", "Equal", "Greater"):
                 return env, {"Less": ".lt", "Equal": ".eq", "Greater": ".gt"}[n]
+            if ty == RERR and n in ("CapacityOverflow", "AllocErr"):
+                return env, {"CapacityOverflow": ".capOverflow", "AllocErr": ".allocErr"}[n]
+            if ty == STRATEGY and n in ("Exact", "Amortized"):
+                return env, "." + n.lower()
+            if ty == FALLIB and n in ("Fallible", "Infallible"):
+                return env, "." + n.lower()
         raise Untranslatable(f"pattern {pat} on {ty}")
 
     # ---- CPS translation of expressions --------------------------------------------------------------------
@@ -488,6 +570,11 @@ class Tr:
             return self.E(e[1], env, K(kc, k.trivial))
         if kind == "try":
             def kt(t, ty, env_):
+                if isinstance(ty, tuple) and ty[0] == "res2":
+                    env2, v = env_.bind("x", ty[1])
+                    env3, ev = env_.bind("e", RERR)
+                    err_ret = self.RET(f"(Except.error {ev})", res2("?"), env3)
+                    return f"(match {t} with\n| .error {ev} => {err_ret}\n| .ok {v} =>\n{k(v, ty[1], env2)})"
                 if not (isinstance(ty, tuple) and ty[0] in ("opt", "res")):
                     raise Untranslatable(f"`?` on {ty}")
                 env2, v = env_.bind("x", ty[1])
@@ -511,7 +598,7 @@ class Tr:
                 return self.E(e[2], env, K(ka))
 
             def ka(ta, tya, env_):
-                if mentions_state(ta) and self.pure(e[3], env_) is None and lean_ty_ok(tya):
+                if mentions_state(ta, self.sv) and self.pure(e[3], env_) is None and lean_ty_ok(tya):
                     env_, ln = env_.bind("a", tya)
                     return f"let {ln} := {ta};\n" + ka(ln, tya, env_)
 
@@ -585,7 +672,7 @@ class Tr:
 
             def ki(t, ty, e2):
                 # a term that reads the arena state must be bound before a later argument can change the state
-                if mentions_state(t) and any(self.pure(a, e2) is None for a in args[i + 1:]) and lean_ty_ok(ty):
+                if mentions_state(t, self.sv) and any(self.pure(a, e2) is None for a in args[i + 1:]) and lean_ty_ok(ty):
                     e3, ln = e2.bind("a", ty)
                     return f"let {ln} := {t};\n{go(i + 1, acc + [(ln, ty)], e3)}"
                 return go(i + 1, acc + [(t, ty)], e2)
@@ -703,8 +790,8 @@ class Tr:
                 return self.bind_call(f"Rs.copy_nonoverlapping {sp(pa)}", "st", k, env_, UNIT)
             if segs[-2:] == ["ptr", "copy"] and len(pa) == 3:
                 return self.bind_call(f"Rs.copy {sp(pa)}", "st", k, env_, UNIT)
-            if n in FN and (len(segs) == 1 or segs[0] == "Self"):
-                g = FN[n]
+            g = FN_BY_KIND.get(("free", n)) if len(segs) == 1 else (FN_BY_KIND.get(("assoc", n)) if segs[0] == "Self" else None)
+            if g is not None:
                 return self.call_fn(g, None, pa, env_, k)
             raise Untranslatable(f"call of {'::'.join(segs)}")
         return self.args(args, env, kall)
@@ -714,7 +801,9 @@ class Tr:
             raise Untranslatable(f"{g.name} is called but could not be translated itself")
         rty = rust_ty(g.sig["ret"])
         lead = []
-        if g.kind in ("bump", "chunk"):
+        if g.kind == "rawvec":
+            lead = ["c"]
+        elif g.kind in ("bump", "chunk"):
             lead = ["E", "M"]
         elif g.kind == "assoc":
             lead = ["M"]
@@ -722,7 +811,7 @@ class Tr:
             lead.append(paren(recv))
         call = " ".join([f"Gen.Fn.{g.lean}"] + lead + [paren(t) for t, _ in pa])
         if g.mode == "read":
-            call += " s"
+            call += " " + self.sv
         vty = rty
         if isinstance(rty, tuple) and rty[0] == "res":
             # callee yields Outcome T with .err: reify as an Option value
@@ -733,23 +822,41 @@ class Tr:
 
     def bind_call_raw(self, call, k, env, ty):
         env2, v = env.bind("r", ty)
-        return f"(bindO ({call} s) fun s {v} =>\n{k(v, ty, env2)})"
+        return f"({self.bindS} ({call} {self.sv}) fun {self.sv} {v} =>\n{k(v, ty, env2)})"
 
     def MCALL(self, e, env, k):
         recv, name, args = e[1], e[2], e[3]
+        if recv == ("path", ["self"]) and self.fn.kind == "rawvec":
+            if ("rawvec", name) in FN_BY_KIND:
+                return self.args(args, env, lambda pa, env_: self.call_fn(FN_BY_KIND[("rawvec", name)], None, pa, env_, k))
+            if name in EXTERNAL_RV:
+                lf, mode, rty = EXTERNAL_RV[name]
+                return self.args(args, env, lambda pa, env_: self.bind_call(f"{lf} c {sp(pa)}", mode, k, env_, rty))
         # methods on self (the arena)
         if recv == ("path", ["self"]) and self.fn.kind == "bump":
-            if name in FN and FN[name].kind == "bump":
-                return self.args(args, env, lambda pa, env_: self.call_fn(FN[name], None, pa, env_, k))
+            if ("bump", name) in FN_BY_KIND:
+                return self.args(args, env, lambda pa, env_: self.call_fn(FN_BY_KIND[("bump", name)], None, pa, env_, k))
             if name in EXTERNAL:
                 lf, mode, rty = EXTERNAL[name]
                 return self.args(args, env, lambda pa, env_: self.bind_call(f"{lf} E M {sp(pa)}", mode, k, env_, rty))
         # Option/Result combinators taking closures or diverging functions
         if name in ("map", "unwrap_or_else", "and_then", "ok_or_else", "filter"):
             def kr(t, ty, env_):
-                if not (isinstance(ty, tuple) and ty[0] in ("opt", "res")):
+                if not (isinstance(ty, tuple) and ty[0] in ("opt", "res", "res2")):
                     raise Untranslatable(f".{name} on {ty}")
                 a = args[0]
+                if name == "unwrap_or_else" and ty[0] == "res2":
+                    env2, v = env_.bind("x", ty[1])
+                    pre, kj = self.join(k, ty[1], env_, [], 2)
+                    if a[0] == "path":
+                        other = self.CALL(("call", a, []), env_, kj)
+                    elif a[0] == "closure":
+                        other = self.E(a[2], env_, kj)
+                    else:
+                        raise Untranslatable("unwrap_or_else argument")
+                    return f"({pre}match {t} with\n| .ok {v} => {kj(v, ty[1], env2)}\n| .error _ =>\n{other})"
+                if ty[0] == "res2":
+                    raise Untranslatable(f".{name} on {ty}")
                 if name == "unwrap_or_else":
                     env2, v = env_.bind("x", ty[1])
                     pre, kj = self.join(k, ty[1], env_, [], 2)
@@ -784,8 +891,8 @@ class Tr:
                     return self.check(f"{a} ≤ {t}", "pointer sub wraps", k(f"({t} - {a})", NAT, env2))
                 if ty == NAT and name == "next_power_of_two" and not pa:
                     return self.bind_call(f"Rs.next_power_of_two {paren(t)}", "pure", k, env2, NAT)
-                if ty == CHUNK and name in FN and FN[name].kind == "chunk":
-                    return self.call_fn(FN[name], t, pa, env2, k)
+                if ty == CHUNK and ("chunk", name) in FN_BY_KIND:
+                    return self.call_fn(FN_BY_KIND[("chunk", name)], t, pa, env2, k)
                 if isinstance(ty, tuple) and ty[0] == "cell" and name == "set" and len(pa) == 1:
                     # the only cells: a chunk's finger, the arena's current chunk, the arena's limit
                     m = re.fullmatch(r"\(?(.*?)\)?\.ptr", t)
@@ -862,14 +969,14 @@ class Tr:
             env, ln = env.bind(n, ty)
             params.append(f"({ln} : {lean_ty(ty)})")
         if self.mode in ("read", "st"):
-            params.append("(s : St)")
+            params.append(f"({self.sv} : {self.sty})")
         body = self.E(self.body, env, K(lambda t, ty, e: self.RET(t, ty, e), True))
         head = f"def {self.fn.lean} {' '.join(params)} : {self.ret_lean_ty()} :="
         return "\n".join(self.lifted) + ("\n" if self.lifted else "") + f"/-- `{self.fn.file}`: `fn {self.fn.name}` -/\n" + head + "\n" + indent(body) + "\n"
 
 
-def mentions_state(term):
-    return re.search(r"(?<![A-Za-z0-9_.])s(?![A-Za-z0-9_])", term) is not None
+def mentions_state(term, sv="s"):
+    return re.search(r"(?<![A-Za-z0-9_.])%s(?![A-Za-z0-9_])" % sv, term) is not None
 
 
 def lean_ty_ok(t):
@@ -985,7 +1092,8 @@ def translate_all(repo):
 
 
 GROUP_IMPORTS = {"Arith": [], "Details": ["Arith"], "Limit": ["Arith"], "Footer": ["Arith"], "Fast": ["Arith", "Footer"],
-                 "Realloc": ["Arith", "Fast", "Footer", "Limit"]}
+                 "Realloc": ["Arith", "Fast", "Footer", "Limit"], "RawVec": []}
+GROUP_PRELUDE = {"RawVec": "BumpVerif.Model.RsVec"}
 
 
 def run(repo, out_dir, write_if_changed):
@@ -994,8 +1102,11 @@ def run(repo, out_dir, write_if_changed):
     for g, items in groups.items():
         files = ", ".join(sorted({f.file for f, _, _ in items}))
         text = HEADER.format(files="/repo/" + files)
+        if g in GROUP_PRELUDE:
+            text = text.replace("import BumpVerif.Model.Rs\n", f"import {GROUP_PRELUDE[g]}\n", 1)
         for dep in GROUP_IMPORTS.get(g, []):
-            text = text.replace("import BumpVerif.Model.Rs\n", f"import BumpVerif.Model.Rs\nimport BumpVerif.Gen.Fn{dep}\n", 1)
+            first = text.split("\n", 1)[0]
+            text = text.replace(first + "\n", f"{first}\nimport BumpVerif.Gen.Fn{dep}\n", 1)
         for f, body, err in items:
             if body is None:
                 text += f"/- `{f.name}` could not be translated: {err} -/\n\n"
